@@ -9,6 +9,8 @@ pub mod c12;
 pub mod c13;
 pub mod c14;
 pub mod c15;
+pub mod c16;
+pub mod c19;
 pub mod drv;
 pub mod qh;
 
@@ -26,6 +28,8 @@ pub fn run(ctx: &Ctx) -> Option<Report> {
         "C13" => c13::run(ctx),
         "C14" => c14::run(ctx),
         "C15" => c15::run(ctx),
+        "C16" => c16::run(ctx),
+        "C19" => c19::run(ctx),
         _ => return None,
     })
 }
@@ -41,6 +45,8 @@ pub fn replay(id: &str, engine: &str, case: &Value) -> Result<(), String> {
         "C13" => c13::replay(engine, case),
         "C14" => c14::replay(engine, case),
         "C15" => c15::replay(engine, case),
+        "C16" => c16::replay(engine, case),
+        "C19" => c19::replay(engine, case),
         _ => Err(format!("unknown property {}", id)),
     }
 }
